@@ -165,6 +165,10 @@ def run_impl(world, c0, history, catch=None, timeout=10.0, iwp=False, clock_via=
         default = table[1]
 
         def paction(state):
+            if not isinstance(state, int) or isinstance(state, bool):
+                # the periodic action must receive the state returned by the previous call (an int here)
+                trace.append(("badstate", -1 - pid, -1, repr(state)))
+                state = -1
             obs.append(("tick", pid, int(state), read()))
             trace.append(("tick", pid, int(state), obs[-1][3]))
             r = entries.get(int(state), default)
